@@ -1,9 +1,11 @@
 package checks
 
 import (
+	"bytes"
 	"fmt"
 	"math/rand"
 	"os"
+	"regexp"
 	"sort"
 	"strings"
 
@@ -45,7 +47,72 @@ func observe(root *ggql.Root) (vec []string, err error) {
 	if pv != nil {
 		return vec, fmt.Errorf("panic while observing: %v", pv)
 	}
+	if pv2, _ := run.Protect(func() { vec = append(vec, observeByName(root)) }); pv2 != nil {
+		return vec, fmt.Errorf("panic while observing by name: %v", pv2)
+	}
 	return vec, nil
+}
+
+// c14ProbeNames are the identifiers that occurred in the documents of the current history (failed ones included).
+var c14ProbeNames []string
+
+var c14IdentRe = regexp.MustCompile(`[A-Za-z_][A-Za-z0-9_]*`)
+
+func c14NoteNames(text string) {
+	seen := map[string]bool{}
+	for _, n := range c14ProbeNames {
+		seen[n] = true
+	}
+	for _, n := range c14IdentRe.FindAllString(text, -1) {
+		if !seen[n] && len(c14ProbeNames) < 400 {
+			seen[n] = true
+			c14ProbeNames = append(c14ProbeNames, n)
+		}
+	}
+}
+
+// observeByName asks the types what they know BY NAME, which is what requests go by: the members an input type accepts
+// and fills in, the values an enum takes, the fields an object or interface finds. The listings (SDL, introspection) and
+// the look-ups are kept in separate structures inside ggql; a failed load must leave neither changed.
+func observeByName(root *ggql.Root) string {
+	var b strings.Builder
+	b.WriteString("BY-NAME:\n")
+	sortWas := ggql.Sort
+	ggql.Sort = true
+	defer func() { ggql.Sort = sortWas }()
+	for _, t := range root.Types() {
+		switch tt := t.(type) {
+		case *ggql.Input:
+			v, err := tt.CoerceIn(map[string]interface{}{})
+			var vb bytes.Buffer
+			_ = ggql.WriteSDLValue(&vb, v, -1)
+			fmt.Fprintf(&b, "input %s {} => %s err=%v\n", tt.Name(), vb.String(), err != nil)
+			for _, n := range c14ProbeNames {
+				if _, err := tt.CoerceIn(map[string]interface{}{n: nil}); err == nil || !strings.Contains(err.Error(), "not a field") {
+					fmt.Fprintf(&b, "input %s knows %s\n", tt.Name(), n)
+				}
+			}
+		case *ggql.Enum:
+			for _, n := range c14ProbeNames {
+				if _, err := tt.CoerceIn(ggql.Symbol(n)); err == nil {
+					fmt.Fprintf(&b, "enum %s takes %s\n", tt.Name(), n)
+				}
+			}
+		case *ggql.Object:
+			for _, n := range c14ProbeNames {
+				if tt.GetField(n) != nil {
+					fmt.Fprintf(&b, "type %s finds %s\n", tt.Name(), n)
+				}
+			}
+		case *ggql.Interface:
+			for _, n := range c14ProbeNames {
+				if tt.GetField(n) != nil {
+					fmt.Fprintf(&b, "interface %s finds %s\n", tt.Name(), n)
+				}
+			}
+		}
+	}
+	return b.String()
 }
 
 func vecDiff(a, b []string) string {
@@ -321,6 +388,15 @@ func c14DynamicFailures(r *rand.Rand, base *model.Schema, tag string) []struct{ 
 	}
 	// a directive use whose argument value is an input object: extending that input type in a failing document must not
 	// show in the use afterwards (c14Base plants @cfgZz(opt: {}) on Query)
+	for _, t := range base.Types {
+		for _, du := range t.Dirs {
+			if du.Name == "go" && t.Kind == model.Object {
+				// a directive the type already carries, repeated by an extension of a document that fails (at that block or later)
+				add("extend-repeats-go-directive-then-invalid", fmt.Sprintf("extend type %s @go(type: \"OtherGoZz%s\") { fresh%s: Int }\nextend type %s { %s: Int }", t.Name, tag, tag, t.Name, t.Fields[0].Name))
+				add("extend-repeats-go-directive-then-invalid", fmt.Sprintf("extend type %s @go(type: \"OtherGoZz%s\")\ntype EmptyZz%s { }", t.Name, tag, tag))
+			}
+		}
+	}
 	if base.Type("OptZz") != nil {
 		add("extend-input-of-directive-argument-then-invalid", fmt.Sprintf("extend input OptZz { b%s: Int = 2 }\ntype EmptyZz%s { }", tag, tag))
 		add("extend-input-of-directive-argument-then-invalid", fmt.Sprintf("extend input OptZz { c%s: [Int] = [1] }\nunion BadUnionZz%s = Int", tag, tag))
@@ -352,9 +428,18 @@ func runC14(c *run.Ctx) {
 			if qt := base.Type(base.Query); qt != nil {
 				qt.Dirs = append(qt.Dirs, model.DirUse{Name: "cfgZz", Args: []model.Arg{{Name: "opt", Value: model.NewObjLit().Set("s", "x")}}})
 			}
+			// ... and an object type that says which Go type stands for it
+			for _, t := range base.Types {
+				if t.Kind == model.Object && t.Name != base.Query {
+					t.Dirs = append(t.Dirs, model.DirUse{Name: "go", Args: []model.Arg{{Name: "type", Value: "ZzGoTypeOf" + t.Name}}})
+					break
+				}
+			}
 			base.Reindex()
 		}
 		sdl := base.SDL(model.SDLOpts{})
+		c14ProbeNames = nil
+		c14NoteNames(sdl)
 		var hist []string
 		root, err := loadSDL(sdl)
 		if i%4 == 3 && err == nil {
@@ -418,12 +503,6 @@ func runC14(c *run.Ctx) {
 		bad := false
 		steps := 3 + r.Intn(6)
 		for st := 0; st < steps && !bad; st++ {
-			before, oerr := observe(root)
-			if oerr != nil {
-				c.Violation("c14-observe", map[string]interface{}{"base_sdl": sdl, "history": hist, "diag": oerr.Error()})
-				bad = true
-				break
-			}
 			tag := fmt.Sprintf("S%d", st)
 			var load c14Load
 			load.Reader = -1
@@ -494,6 +573,14 @@ func runC14(c *run.Ctx) {
 				load = c14Load{Kind: "valid", Text: text, Expect: "either", Reader: -1}
 			}
 			hist = append(hist, fmt.Sprintf("[%s reader=%d] %s", load.Kind, load.Reader, load.Text))
+			// the state before the load, looked at with the names of THIS document already among the probes
+			c14NoteNames(load.Text)
+			before, oerr := observe(root)
+			if oerr != nil {
+				c.Violation("c14-observe", map[string]interface{}{"base_sdl": sdl, "history": hist[:len(hist)-1], "diag": oerr.Error()})
+				bad = true
+				break
+			}
 			var lerr error
 			pv, _ := run.Protect(func() {
 				if load.Reader >= 0 {
